@@ -191,7 +191,7 @@ def h1_opd(ctx, obj, wi, sample, vig=False, multi=False):
 
 
 @harness('C09', 'H2_common_wavefront', funcs=FUNCS, stubs=STUBS, cases=lambda tier: [dict(vig=False), dict(vig=True)],
-         bounds='infinite object, angular field, stop at the first surface; real RayGenerator for the start points, symbolic pupil point '
+         bounds='infinite object, angular field, stop at the first surface; the rays really launched by Optic.trace / trace_generic (captured at the real RayGenerator), symbolic pupil point '
                 'and vignetting factors',
          doc='for an infinite object the paths are measured from a common wavefront perpendicular to the field direction: the tilt term '
              'applied to a ray minus that of the chief ray equals n0 (P_ray - P_chief) . d for the start points the generator actually uses')
@@ -201,10 +201,29 @@ def h2_common_wavefront(ctx, vig):
     w = nums['ws'][0]
     H = (0.0, 1.0)
     px, py = ctx.real('px', lo=-1.0, hi=1.0), ctx.real('py', lo=-1.0, hi=1.0)
-    # start points the real generator uses for this pupil point, as Optic.trace passes it on (vignetting applied there and again here)
-    vx, vy = (ctx.val(v) for v in o.fields.get_vig_factor(*H))
-    rays = o.ray_generator.generate_rays(H[0], H[1], ctx.arr(px * (1 - vx)), ctx.arr(py * (1 - vy)), w)
-    chief = o.ray_generator.generate_rays(H[0], H[1], ctx.arr(0.0), ctx.arr(0.0), w)
+    # start points of the rays that Optic.trace REALLY launches for this distribution (captured at the ray generator) and of the chief ray
+    launched = []
+    real_gen = o.ray_generator.generate_rays
+
+    class _Launched(Exception):
+        pass
+
+    def capture(*a, **k):
+        launched.append(real_gen(*a, **k))
+        raise _Launched()
+    o.ray_generator.generate_rays = capture
+    try:
+        try:
+            o.trace(H[0], H[1], w, None, TwoPoints(ctx, [(px, py)]))
+        except _Launched:
+            pass
+        try:
+            o.trace_generic(H[0], H[1], 0.0, 0.0, w)
+        except _Launched:
+            pass
+    finally:
+        o.ray_generator.generate_rays = real_gen
+    rays, chief = launched
     d = (ctx.val(chief.L), ctx.val(chief.M), ctx.val(chief.N))
     dp = (ctx.val(rays.x) - ctx.val(chief.x), ctx.val(rays.y) - ctx.val(chief.y), ctx.val(rays.z) - ctx.val(chief.z))
     lead = dp[0] * d[0] + dp[1] * d[1] + dp[2] * d[2]        # the ray starts this far ahead of the chief ray's wavefront (n0 = 1)
